@@ -150,7 +150,7 @@ class Adversary:
             return y, b"\x00" * 32, None
         auth = crypto_auth(s1[:32], y)
         first = None
-        halves = [("eph-twice", s1), ("zeros", b"\x00" * 32), ("A-static", self._dh(self.static, xeph))]
+        halves = [("eph-twice", s1), ("zeros", b"\x00" * 32), ("A-static", self._dh(self.static, xeph)), ("nothing", b"")]
         if actor_static is not None:
             halves.append(("actor-static", self._dh(actor_static, xeph)))
         if selected_pub is not None:
@@ -937,6 +937,9 @@ class Interceptor:
 # one execution
 # ---------------------------------------------------------------------------------------------------------------------
 
+LEGACY_CURVES = ("very-low", "low", "medium", "high")
+
+
 def _benign(m: dict) -> bool:
     """The network only loses, repeats or delays datagrams (contents untouched) and every participant is honest."""
     if m["site"] in ("sched", "app", "history"):
@@ -1023,7 +1026,11 @@ def run_one(scn: tuple, plan: list[dict], seed: int):  # noqa: ANN201
         # candidates of every path node (the candidate lists of the handshake are capped at 4 + 4 entries)
         roles.update({f"M{i + 1}": RELAY for i in range(crowd["relays"])})
         roles.update({f"E{i + 1}": EXIT_BT for i in range(crowd["exits"])})
-    w = TunnelWorld(("c08", seed, h, ncirc, spare, repr(crowd)), roles, key_offset=seed)
+    legacy = next((m for m in plan if m["site"] == "world"), None)
+    # world "legacy-exit": the required exit X has an identity key on a legacy curve (it can sign, it cannot take part in
+    # the key exchange): whoever answers in its place must not end up sharing keys with the originator
+    w = TunnelWorld(("c08", seed, h, ncirc, spare, repr(crowd)), roles, key_offset=seed,
+                    curves={"X": legacy["curve"]} if legacy else None)
     try:
         hist = next((m for m in plan if m["site"] == "history"), None)
         if hist is not None:
@@ -1033,6 +1040,8 @@ def run_one(scn: tuple, plan: list[dict], seed: int):  # noqa: ANN201
         mon = Monitor(w, adv)
         mon.benign = all(_benign(m) for m in plan)
         icp = Interceptor(w, scn, plan, mon, adv)
+        if legacy is not None:
+            icp.applied.append(f"world:legacy-exit:{legacy['curve']}")
         if any(m["site"] == "sched" for m in plan):
             _batch_delivery(w, icp)
         ov = w.ov["O"]
@@ -1491,6 +1500,17 @@ def build_jobs(thorough: bool, seed: int) -> tuple[list, dict]:
                 jobs.append((scn, [{"site": "history", "op": "moved", "removal": removal, "reintro": reintro,
                                     "where": where}]))
                 n_hist += 1
+        if ncirc == 1 and not spare:
+            for curve in (LEGACY_CURVES if thorough else LEGACY_CURVES[1::2]):
+                world = {"site": "world", "op": "legacy-exit", "curve": curve}
+                jobs.append((scn, [world]))
+                n_app += 1
+                for m in singles:
+                    if m["j"] == h - 1 and m["c"] == 0 and (
+                            (m["site"] == "pred" and m["op"] == "self_answer")
+                            or (m["site"] == "link0" and m["op"] in ("answer_by", "mitm"))):
+                        jobs.append((scn, [m, world]))
+                        n_app += 1
         n_pairs = 0
         if thorough and ncirc == 1:
             red = site_ops(h, ncirc, lens, thorough, reduced=True)
